@@ -77,6 +77,10 @@ CHECKS = {
             "DESIGN.md 3/C14",
             "A seeded case list (encoder runs with position bias / window moves / long matches, decoder runs over damaged and shortened streams, i32 normalisation arrays) is run through four builds of /verif/featx; compressed bytes (size+hash), decoded bytes (count+hash) and error class must be identical in all four, and normalize_scalar == normalize dispatch == max(p - offset, 0).",
             "x86_64 only: the aarch64 assembly / NEON paths are not compiled here. Cases are generated, not shrunk (the failing case is already a single small input)."),
+    "C15": ("exploration", "property-based testing / fuzzing of the C01 encoder and C06 hostile-decoder workloads with two out-of-bounds sensors: cfg-gated shadow assertions before every unsafe block and an electric-fence allocator (inaccessible page directly after / before every allocation >= 4 KiB)",
+            "DESIGN.md 3/C15",
+            "Generated encoder cases (all C01 families incl. inputs fitted to end at the physical end of the window buffer, window moves, SIMD renormalisation), hostile decoder inputs (all C06 decoders and mutations), LZMA2 streams with a shortened chunk (direct bits at and beyond the end of the chunk buffer) and normalisation on sub-slices of every alignment; no shadow assertion may fire and the process must not die on a guard page. Release and overflow-checked builds.",
+            "x86_64 only (aarch64 assembly / NEON not compiled). Guard pages see strays that leave an allocation >= 4 KiB by less than a page; smaller allocations and strays that stay inside the allocation are covered by the shadow assertions only. A crashing case is reported unshrunk (the case file written before the evaluation is the replay)."),
     "C17": ("exploration", "property-based testing with an accounting global allocator as measuring oracle",
             "DESIGN.md 3/C17",
             "Generated (dict_size, lc, lp, mode, match finder, nice_len) vectors: the peak heap measured by the harness's accounting allocator while constructing and running LZMA2Writer / LZMAWriter / LZMAReader / LZMA2Reader must be <= the estimator's figure, and the figure <= 3 x peak + 512 KiB; LZMAReader::new_mem_limit must refuse with OutOfMemory iff limit < need, before allocating 64 KiB; estimator-only evaluation up to 768 MiB against the harness's closed form of the allocations.",
